@@ -57,15 +57,14 @@ def lean_stage(prop, ctx, res):
     for rel in files:
         path = os.path.join(common.LEAN, rel)
         names = common.property_theorems(path)
-        okf, ax, outf = common.check_props_file(rel)
+        okf, ax, outf = common.check_props_file(rel, names)
         checker.append(f"cd lean && lake env lean {rel}")
         for n in names:
             res.obligations.append(n)
             a = ax.get(n)
             if a is None:
                 if okf:
-                    # theorem elaborated but has no #print axioms line: audit incomplete
-                    res.broken.append(("audit", n, f"no `#print axioms {n}` line in {rel}"))
+                    res.broken.append(("audit", n, f"`#print axioms {n}` gave no result (name not found?)"))
                 else:
                     res.broken.append(("theorem", n, "does not check (see build log)"))
             elif not a <= common.ALLOWED_AXIOMS:
@@ -83,6 +82,8 @@ def lean_stage(prop, ctx, res):
         if rc != 0:
             res.broken.append(("leanchecker", " ".join(mods), out[-1500:]))
     res.checker_cmd = " && ".join(checker) or "cd lean && lake build"
+    if files and not res.obligations:
+        res.broken.append(("theorem-file", ",".join(files), "no property theorem found"))
     if os.path.exists(common.DRIVER):
         ctx.driver = common.Driver()
 
@@ -160,7 +161,6 @@ def main(argv=None):
             try:
                 before = len(res.failures)
                 search(ctx, res, corr_new)
-                _k, new2 = classify(prop, Result.__new__(Result)) if False else (None, None)
                 extra = res.failures[before:]
                 matcher = getattr(prop, "matches_known", None)
                 for fl in extra:
